@@ -24,6 +24,9 @@ values).
 from __future__ import annotations
 
 import itertools
+import os
+import pickle
+import select
 import struct
 
 from hypothesis import strategies as st
@@ -52,7 +55,7 @@ ASSUMPTIONS = [
     'NaN is not generated as a tag value (comparison is by bit pattern; NaN payload propagation is not part of the property)',
     'a write piece carries <= 480 bytes of data (what callers put in one frame)',
 ]
-MIN_EVALUATIONS = {'quick': 8000, 'thorough': 60000}
+MIN_EVALUATIONS = {'quick': 15000, 'thorough': 150000}
 
 DEFAULT_BUDGET = 488
 SIZE_TYPES_QUICK = ['BOOL', 'SINT', 'INT', 'DINT', 'LREAL']
@@ -384,7 +387,280 @@ def pred_write(case, stats):
                             'and every other element of every tag is unchanged' % (s, s + n))
 
 
-CLAUSES = {'read': pred_read, 'write': pred_write}
+# ------------------------------------------------------------------------------------------------
+# client side: the same transfers driven through cpppo's own client (server/enip/client.py: parse_operations
+# "TAG[a-b]+offset", connector.read/write( elements, offset ), collect) over TCP against enip.main.main().
+# The simulator thread and the in-process Device cannot share a process (module-global tag tables), so the
+# TCP laboratory lives in a child process of whoever evaluates a client case.
+
+CLIENT_TAGS = {'BOOL': 40, 'SINT': 700, 'USINT': 60, 'INT': 400, 'UINT': 30, 'DINT': 200, 'UDINT': 20, 'LINT': 150,
+               'ULINT': 12, 'REAL': 130, 'LREAL': 64}
+CLIENT_TIMEOUT = 60.0       # only ever turns a run into "inconclusive"
+
+
+def value_text(t, v):
+    if t == 'BOOL':
+        return 'true' if v else 'false'
+    return repr(float(v)) if t in M.FLOAT_TYPES else str(int(v))
+
+
+class _Tcp(object):
+    """Inside the laboratory process: one simulator, one connector."""
+    srv = None
+    conn = None
+    default_max_bytes = None
+
+    @classmethod
+    def server(cls):
+        if cls.srv is None:
+            specs = [{'name': 'C_' + t, 'type': t, 'length': n, 'address': None} for t, n in CLIENT_TAGS.items()]
+            cls.srv = sim.TcpServer(specs)
+            from cpppo.server.enip import logix
+            cls.default_max_bytes = logix.Logix.MAX_BYTES
+        return cls.srv
+
+    @classmethod
+    def connector(cls):
+        if cls.conn is None:
+            from cpppo.server.enip import client
+            srv = cls.server()
+            cls.conn = client.connector(host=srv.address[0], port=srv.address[1], timeout=CLIENT_TIMEOUT)
+        return cls.conn
+
+    @classmethod
+    def drop(cls):
+        if cls.conn is not None:
+            try:
+                cls.conn.close()
+            except Exception:
+                pass
+        cls.conn = None
+
+
+def client_run(ops_text, multiple):
+    """Issue the textual operations the way client.main() does -> [(status, ext, value, reply)], one per operation."""
+    from cpppo.server.enip import client
+    conn = _Tcp.connector()
+    done = False
+    try:
+        ops = list(client.parse_operations(ops_text))
+        out = []
+        with conn:      # the connector's parser is locked while in use
+            for idx, dsc, req, rpy, sts, val in conn.synchronous(operations=ops, timeout=CLIENT_TIMEOUT,
+                                                                 multiple=500 if multiple else 0):
+                ext = []
+                if isinstance(sts, tuple):
+                    sts, ext = sts[0], list(sts[1])
+                out.append((sts, ext, val, rpy))
+        done = True
+        return out
+    finally:
+        if not done:
+            _Tcp.drop()
+
+
+def lab_client_case(case, stats):
+    """Runs inside the laboratory process."""
+    t = case['type']
+    size, L, s, n = check_shape(case, 'client')
+    if CLIENT_TAGS.get(t) != L or case['op'] not in ('read', 'write'):
+        raise common.HarnessError('malformed client case')
+    srv = _Tcp.server()
+    from cpppo.server.enip import logix
+    budget = case['budget']
+    eff = DEFAULT_BUDGET if budget == 'default' else int(budget)
+    logix.Logix.MAX_BYTES = _Tcp.default_max_bytes if budget == 'default' else eff
+    name = 'C_' + t
+    old = fill_values(t, case['fill'], L)
+    want = {}
+    for tt, ln in CLIENT_TAGS.items():
+        vals = old if tt == t else fill_values(tt, GUARD_FILL, ln)
+        srv.set_values('C_' + tt, vals)
+        want['C_' + tt] = canon_list(tt, vals)
+    if srv.snapshot() != want:
+        raise common.HarnessError('could not load the tag contents of the TCP simulator')
+    multiple = bool(case.get('multiple'))
+    rng = '%s[%d-%d]' % (name, s, s + n - 1) if case['elem'] is not None else (name if n == 1 else None)
+    if rng is None:
+        raise common.HarnessError('client case without element index needs count 1')
+    classes = ['client', 'client:' + case['op'], 'size:%d' % size, 'client:' + ('multiple-service-packet' if multiple else 'single')]
+    bad = []
+    pre = 'client-%s:' % case['op']
+    if case['op'] == 'read':
+        per = -(-eff // size)
+        wantv = canon_list(t, old[s:s + n])
+        got, frags, statuses = [], [], []
+        while True:
+            if len(frags) >= n:
+                bad.append((pre + 'too-many-fragments', {'fragments': len(frags)}))
+                break
+            off = len(got) * size
+            res = client_run(['%s+%d' % (rng, off)], multiple)
+            if len(res) != 1:
+                raise common.HarnessError('no reply to a client request within %.0f s' % CLIENT_TIMEOUT)
+            sts, ext, val, rpy = res[0]
+            statuses.append(sts)
+            if sts not in (0x00, 0x06):
+                bad.append((pre + 'refused-at-%s' % ('offset-0' if off == 0 else 'continuation'),
+                            {'status': sts, 'ext': ext, 'offset': off, 'received_elements': len(got), 'of': n}))
+                break
+            if rpy.get('read_frag.type') != rc.tcode(t):
+                bad.append((pre + 'reply-type-code', {'type': rpy.get('read_frag.type'), 'want_type': rc.tcode(t)}))
+                break
+            if not val:
+                bad.append((pre + 'empty-fragment', {'offset': off, 'status': sts}))
+                break
+            if len(val) > per:
+                bad.append((pre + 'fragment-exceeds-budget', {'offset': off, 'elements': len(val), 'budget': eff, 'allowed': per}))
+            frags.append(len(val))
+            got.extend(val)
+            if sts == 0x00:
+                if len(got) != n:
+                    bad.append((pre + ('final-status-before-all-data' if len(got) < n else 'more-data-than-requested'),
+                                {'received_elements': len(got), 'of': n, 'fragments': frags[-8:]}))
+                break
+            if len(got) >= n:
+                bad.append((pre + 'partial-status-although-all-data-sent', {'received_elements': len(got), 'of': n}))
+                break
+        if not bad or all(sig.endswith('fragment-exceeds-budget') for sig, _ in bad):
+            try:
+                have = canon_list(t, got)
+            except Exception as exc:
+                have = ['unrepresentable: %r' % (exc,)]
+            if have != wantv:
+                first = next((i for i, (a, b) in enumerate(zip(have, wantv)) if a != b), min(len(have), len(wantv)))
+                bad.append((pre + 'data-mismatch', {'first_wrong_element': first, 'got': have[first:first + 6],
+                                                    'want': wantv[first:first + 6], 'fragments': frags[:8]}))
+        nontrivial = len(frags) >= 2
+        classes.append('client:read:' + ('multi-fragment' if nontrivial else 'single-fragment'))
+        if budget == 'default':
+            classes.append('client:read:budget-default-488')
+        for sig, detail in bad:
+            detail['statuses'] = statuses[-6:]
+    else:
+        pieces, order = case['pieces'], case.get('order')
+        if sum(pieces) != n or min(pieces) < 1:
+            raise common.HarnessError('malformed client write case')
+        starts = [0] + list(itertools.accumulate(pieces))[:-1]
+        seq = list(range(len(pieces)))
+        if order:
+            seq = sorted(seq, key=lambda i: (order[i % len(order)], i))
+        new = fill_values(t, case['new'], n, first=s)
+        texts = ['%s+%d=(%s)%s' % (rng, starts[i] * size, t, ','.join(value_text(t, v) for v in new[starts[i]:starts[i] + pieces[i]]))
+                 for i in seq]
+        res = client_run(texts, multiple)
+        if len(res) != len(texts):
+            raise common.HarnessError('%d replies to %d client requests within %.0f s' % (len(res), len(texts), CLIENT_TIMEOUT))
+        for k, (sts, ext, val, rpy) in enumerate(res):
+            if sts != 0:
+                bad.append((pre + 'piece-refused', {'status': sts, 'ext': ext, 'piece_elements': [starts[seq[k]], pieces[seq[k]]]}))
+                break
+        if not bad:
+            want[name] = canon_list(t, old[:s]) + canon_list(t, new) + canon_list(t, old[s + n:])
+            after = srv.snapshot()
+            others = [k for k in want if k != name and after[k] != want[k]]
+            if others:
+                bad.append((pre + 'other-tag-changed', {'tags': others}))
+            if after[name] != want[name]:
+                wrong = [i for i in range(min(L, len(after[name]))) if after[name][i] != want[name][i]]
+                inside = [i for i in wrong if s <= i < s + n]
+                sig = 'range-content-wrong' if inside and len(inside) == len(wrong) else 'element-outside-range-changed'
+                bad.append((pre + sig, {'elements': wrong[:8], 'got': [after[name][i] for i in wrong[:6]],
+                                        'want': [want[name][i] for i in wrong[:6]], 'range': [s, s + n]}))
+        nontrivial = len(pieces) >= 2
+        classes.append('client:write:pieces' + ('>=2' if nontrivial else '=1'))
+        if seq != sorted(seq):
+            classes.append('client:write:pieces-out-of-order')
+    stats.case(case, nontrivial=nontrivial, classes=classes)
+    for sig, detail in bad:
+        stats.fail('client', sig, case, observed=detail,
+                   expected='the transfer driven through cpppo\'s client behaves as the statement says: 0x06 until a final 0x00, '
+                            'fragments of 1..budget-rounded-up elements, data equal to the model; written pieces land exactly '
+                            'in the range')
+
+
+class _Lab(object):
+    """Parent side of the laboratory process (forked on first use, ends when this process ends)."""
+    inst = None
+
+    def __init__(self):
+        r1, w1 = os.pipe()
+        r2, w2 = os.pipe()
+        pid = os.fork()
+        if pid == 0:
+            code = 0
+            try:
+                os.close(w1)
+                os.close(r2)
+                _lab_child(r1, w2)
+            except BaseException:
+                code = 1
+            finally:
+                os._exit(code)
+        os.close(r1)
+        os.close(w2)
+        self.pid, self.w, self.r, self.owner = pid, w1, r2, os.getpid()
+
+    def _read(self, n):
+        buf = b''
+        while len(buf) < n:
+            ready, _, _ = select.select([self.r], [], [], 20 * CLIENT_TIMEOUT)
+            if not ready:
+                raise common.HarnessError('client laboratory process did not answer')
+            chunk = os.read(self.r, n - len(buf))
+            if not chunk:
+                raise common.HarnessError('client laboratory process died')
+            buf += chunk
+        return buf
+
+    def call(self, case):
+        body = pickle.dumps(case)
+        os.write(self.w, struct.pack('<I', len(body)) + body)
+        n = struct.unpack('<I', self._read(4))[0]
+        return pickle.loads(self._read(n))
+
+
+def _lab_child(r, w):
+    def read(n):
+        buf = b''
+        while len(buf) < n:
+            chunk = os.read(r, n - len(buf))
+            if not chunk:
+                os._exit(0)
+            buf += chunk
+        return buf
+
+    _close()
+    while True:
+        n = struct.unpack('<I', read(4))[0]
+        case = pickle.loads(read(n))
+        scratch = Stats()
+        try:
+            common.run_pred(lab_client_case, case, scratch, 'client')
+            answer = ('ok', scratch)
+        except common.HarnessError as exc:
+            answer = ('harness', str(exc))
+        except BaseException as exc:
+            answer = ('harness', 'unexpected %s in the client laboratory: %s' % (type(exc).__name__, str(exc)[:300]))
+        body = pickle.dumps(answer)
+        os.write(w, struct.pack('<I', len(body)) + body)
+
+
+def pred_client(case, stats):
+    if _Lab.inst is not None and _Lab.inst.owner != os.getpid():
+        # inherited through fork from a process that has its own laboratory: not ours to talk to
+        os.close(_Lab.inst.w)
+        os.close(_Lab.inst.r)
+        _Lab.inst = None
+    if _Lab.inst is None:
+        _Lab.inst = _Lab()
+    kind, val = _Lab.inst.call(case)
+    if kind != 'ok':
+        raise common.HarnessError(val)
+    stats.merge(val)
+
+
+CLAUSES = {'read': pred_read, 'write': pred_write, 'client': pred_client}
 
 
 # ------------------------------------------------------------------------------------------------
@@ -513,7 +789,8 @@ def write_cases(draw, max_bytes):
     pmax = max(1, 480 // size)                          # elements in one piece at most
     unit = draw(st.sampled_from([1, 2, 3, 7, pmax, pmax, max(1, pmax // 2)]))
     unit = min(unit, pmax)
-    elem, s, n = draw(range_strategy(L, unit, max(1, max_bytes // size)))
+    # cost bound: at most max_bytes of data and about 60 pieces (<= 120 in the worst case) per transfer
+    elem, s, n = draw(range_strategy(L, unit, max(1, min(max_bytes // size, 60 * unit))))
     style = draw(st.sampled_from(['equal', 'equal', 'random', 'random', 'ones', 'whole']))
     pieces, left = [], n
     if style == 'whole' and n <= pmax:
@@ -522,7 +799,10 @@ def write_cases(draw, max_bytes):
         pieces = [1] * n
     else:
         while left:
-            ln = unit if style == 'equal' else draw(st.integers(1, pmax if len(pieces) % 3 else max(1, unit)))
+            if len(pieces) >= 60:
+                ln = pmax
+            else:
+                ln = unit if style == 'equal' else draw(st.integers(1, pmax if len(pieces) % 3 else max(1, unit)))
             ln = min(ln, left, pmax)
             pieces.append(ln)
             left -= ln
@@ -533,7 +813,46 @@ def write_cases(draw, max_bytes):
             'drive': draw(st.sampled_from(['us', 'us', 'msp'])), 'old': draw(fill_strategy(t)), 'new': draw(fill_strategy(t))}
 
 
-STRATEGIES = {'read': lambda skey: read_cases(skey), 'write': lambda skey: write_cases(skey)}
+@st.composite
+def client_cases(draw, maxfrag):
+    t = draw(st.sampled_from(sorted(CLIENT_TAGS)))
+    size, L = rc.tsize(t), CLIENT_TAGS[t]
+    case = {'kind': 'client', 'op': draw(st.sampled_from(['read', 'read', 'write'])), 'type': t, 'length': L,
+            'multiple': draw(st.integers(0, 2)) == 0, 'fill': draw(fill_strategy(t))}
+    if case['op'] == 'read':
+        budget = draw(st.one_of(st.just('default'), st.integers(1, 40), st.integers(1, 12), st.integers(41, 500)))
+        eff = DEFAULT_BUDGET if budget == 'default' else budget
+        unit = -(-eff // size)
+        cap = maxfrag * unit
+    else:
+        budget = 'default'
+        pmax = max(1, 400 // size)
+        unit = min(pmax, draw(st.sampled_from([1, 2, 5, pmax])))
+        cap = 12 * pmax
+    elem, s, n = draw(range_strategy(L, unit, cap))
+    case.update(elem=s, count=n, budget=budget)       # the textual form TAG[a-b] always names the first element
+    if case['op'] == 'write':
+        pieces, left = [], n
+        while left:
+            ln = min(left, pmax, unit if draw(st.booleans()) else draw(st.integers(1, pmax)))
+            pieces.append(ln)
+            left -= ln
+        order = None
+        if len(pieces) > 1 and draw(st.integers(0, 2)) == 0:
+            order = draw(st.lists(st.integers(0, 7), min_size=1, max_size=min(len(pieces), 12)))
+        case.update(pieces=pieces, order=order, new=draw(fill_strategy(t)))
+    return case
+
+
+STRATEGIES = {'read': lambda skey: read_cases(skey), 'write': lambda skey: write_cases(skey),
+              'client': lambda skey: client_cases(skey)}
+
+
+def shard_client(job):
+    seed, shard, n, maxfrag = job
+    s = Stats()
+    common.hyp_run(s, client_cases(maxfrag), pred_client, n, common.shard_seed(seed, 900 + shard), 'client', PID, skey=maxfrag)
+    return s
 
 
 def shard_random(job):
@@ -548,6 +867,10 @@ def shard_random(job):
     return s
 
 
+def shard(job):
+    return {'client': shard_client, 'random': shard_random, 'groups': shard_groups}[job[0]](job[1])
+
+
 # ------------------------------------------------------------------------------------------------
 
 def run(tier, seed):
@@ -560,8 +883,7 @@ def run(tier, seed):
     # biggest groups first, dealt round-robin into many small jobs: the pool balances the load
     groups.sort(key=lambda g: (-g[2], g[0], g[1], g[3] or 0))
     njobs = 96 if thorough else 48
-    jobs = [groups[i::njobs] for i in range(njobs)]
-    common.parallel(shard_groups, [j for j in jobs if j], stats=stats)
+    jobs = [('groups', groups[i::njobs]) for i in range(njobs) if groups[i::njobs]]
     stats.exhaustive['read'] = (
         'types %s x tag length 1..%d x start {implied 0, explicit 0..L-1} x count 1..L-start x budget 1..3*size+1 x '
         '{Unconnected Send + MAX_BYTES, Logix object + max_size, and for L <= %d Multiple Service Packet + MAX_BYTES}'
@@ -569,9 +891,13 @@ def run(tier, seed):
     stats.exhaustive['write'] = (
         'types %s x tag length 1..%d x start {implied 0, explicit 0..L-1} x count n = 1..L-start x all 2^(n-1) in-order '
         'tilings of n elements x {Unconnected Send, and for L <= %d Multiple Service Packet}' % ('/'.join(types), wL, wL_msp))
+    # Hypothesis-drawn large cases (job = seed, shard, reads, writes, max fragments per read, max bytes per write) and
+    # the client-driven transfers; the long jobs are queued first
     if thorough:
-        jobs = [(seed, i, 320, 160, 200, 40000) for i in range(64)]
+        rnd = [('random', (seed, i, 200, 80, 200, 20000)) for i in range(64)]
+        cli = [('client', (seed, i, 150, 40)) for i in range(6)]
     else:
-        jobs = [(seed, i, 32, 14, 90, 6000) for i in range(16)]
-    common.parallel(shard_random, jobs, stats=stats)
+        rnd = [('random', (seed, i, 32, 14, 90, 6000)) for i in range(16)]
+        cli = [('client', (seed, i, 60, 25)) for i in range(2)]
+    common.parallel(shard, cli + rnd + jobs, stats=stats)
     return stats
